@@ -211,6 +211,8 @@ fn extract_half_camber_line(
     let mut ray = starting_ray.clone();
 
     loop {
+        #[cfg(feature = "verif")]
+        crate::verif::tick();
         let circle = inscribed_from_spanning_ray(curve, &ray, inner_tol);
         refine_stack.push(circle);
 
